@@ -53,6 +53,12 @@ def run_property(prop, tier, quiet=False):
         if tier == 'thorough':
             from . import selftest as st
             selftest = st.run_for(prop, repo)
+            from . import fuzz
+            fz = fuzz.run_for(prop, repo, list(ctx.functions))
+            selftest['harmless_edit_fuzz'] = {k: v for k, v in fz.items() if k != 'no_verdict_cases'}
+            selftest['harmless_edit_fuzz']['no_verdict_examples'] = fz['no_verdict_cases'][:5]
+            for fa_ in fz['false_alarms']:
+                selftest['failed'].append('harmless edit reported: ' + fa_)
             if hasattr(mod, 'sweep'):
                 mod.sweep(ctx)
         new, known = report.split_known(ctx.violations)
@@ -77,8 +83,9 @@ def run_property(prop, tier, quiet=False):
                   % (prop, tier, len(ctx.obligations), len(ctx.functions), len(rc),
                      ', '.join('%s=%d' % (k.split('.', 1)[-1], rc[k]) for k in sorted(rc)),
                      len(new), len(known), time.time() - t0,
-                     ('; self-test %d/%d breaking edits reported, %d/%d harmless edits silent'
-                      % (selftest['killed'], selftest['mutants'], selftest['silent'], selftest['refactors']))
+                     ('; self-test %d/%d breaking edits reported, %d/%d harmless rewrites silent, %d/%d fuzzed harmless edits silent (%d no verdict)'
+                      % (selftest['killed'], selftest['mutants'], selftest['silent'], selftest['refactors'],
+                         selftest['harmless_edit_fuzz']['silent'], selftest['harmless_edit_fuzz']['variants'], selftest['harmless_edit_fuzz']['no_verdict']))
                      if selftest else ''))
         return 1 if new else 0
     except AnalysisError as e:
